@@ -7,6 +7,7 @@ import os
 import re
 import subprocess
 import tempfile
+import json
 import time
 import multiprocessing as mp
 
@@ -59,11 +60,73 @@ def _seq_to_py(v):
     return str(v)
 
 
-def _run_z3(smt2, names, timeout_ms):
+def _run_z3(smt2, names, timeout_ms, fallback=True):
+    """z3 on one query: the default strategy, then (fallback) the plain incremental SMT core on what it leaves unknown"""
+    res, model, t, reason = _run_z3_core(smt2, names, timeout_ms, simple=False)
+    if res != 'unknown' or not fallback:
+        return res, model, t, reason
+    r2 = _run_z3_core(smt2, names, max(1000, int(timeout_ms * 0.5)), simple=True)
+    return r2[0], r2[1], t + r2[2], r2[3]
+
+
+def _guarded(smt2, names, timeout_ms):
+    import os
+    import select
+    import signal
+    t0 = time.time()
+    rfd, wfd = os.pipe()
+    pid = os.fork()
+    if pid == 0:
+        try:
+            os.close(rfd)
+            out = _run_z3_core(smt2, names, timeout_ms, simple=False)
+            os.write(wfd, json.dumps([out[0], out[1], out[3]], default=str).encode())
+        except BaseException:
+            pass
+        finally:
+            os._exit(0)
+    os.close(wfd)
+    data = b''
+    deadline = t0 + timeout_ms / 1000.0 * 1.5 + 2
+    try:
+        while True:
+            left = deadline - time.time()
+            if left <= 0:
+                break
+            r, _, _ = select.select([rfd], [], [], left)
+            if not r:
+                break
+            chunk = os.read(rfd, 1 << 16)
+            if not chunk:
+                break
+            data += chunk
+    finally:
+        os.close(rfd)
+        try:
+            os.kill(pid, signal.SIGKILL)
+        except OSError:
+            pass
+        try:
+            os.waitpid(pid, 0)
+        except OSError:
+            pass
+    try:
+        res, model, reason = json.loads(data.decode())
+        return res, model, time.time() - t0, reason
+    except Exception:
+        return 'unknown', None, time.time() - t0, 'tactic solver killed at the deadline'
+
+
+def _run_z3_core(smt2, names, timeout_ms, simple=True):
     t0 = time.time()
     try:
         ctx = z3.Context()
-        s = z3.Solver(ctx=ctx)
+        # the incremental SMT core; the tactic-based default solver preprocesses with ctx-simplify, which on the deeply nested
+        # if-then-else terms of merged paths can run for many minutes and does not honour the timeout
+        # simple: the plain incremental SMT core; otherwise z3's default strategy (logic-specific tactic pipelines: much faster on the
+        # integer-only queries of vector strings, but its ctx-simplify step can overrun the timeout - the per-function time budget of
+        # verify_function is the safety valve for that)
+        s = z3.SimpleSolver(ctx=ctx) if simple else z3.Solver(ctx=ctx)
         s.set('timeout', int(timeout_ms))
         s.from_string(smt2)
         r = s.check()
@@ -125,26 +188,14 @@ def solve_one(job):
     qfree = job[5] if len(job) > 5 and job[5] != 'retry' else None
     if qfree is not None:
         # lemma axioms (quantified) dropped: unsat here is unsat of the full query
-        r0, m0, t0, reason0 = _run_z3(qfree, names, z3_ms)
+        r0, m0, t0, reason0 = _run_z3(qfree, names, z3_ms, fallback=False)
         if r0 == 'unsat':
             return {'idx': idx, 'z3': 'unsat', 'z3_s': round(t0, 3), 'model': None, 'reason': '', 'cvc5': None, 'cvc5_s': 0.0}
-        res, model, t, reason = _run_z3(smt2, names, z3_ms)
+        res, model, t, reason = _run_z3(smt2, names, z3_ms, fallback=(r0 != 'sat'))
         out = {'idx': idx, 'z3': res, 'z3_s': round(t + t0, 3), 'model': model, 'reason': reason, 'cvc5': None, 'cvc5_s': 0.0}
         if res == 'unknown' and r0 == 'sat':
-            # a model of the query WITHOUT the lemma axioms is only a candidate: before it is handed to the native replay the full
-            # query gets cvc5 and then z3 again with four times the budget (unsat from either settles it)
-            if cvc5_ms:
-                r2, t2, _ = _run_cvc5(smt2, cvc5_ms)
-                out['cvc5'], out['cvc5_s'] = r2, round(t2, 3)
-                if r2 == 'unsat':
-                    out['z3'] = 'unknown'
-                    return out
-            if not job_retry(job):
-                res4, model4, t4, reason4 = _run_z3(smt2, names, z3_ms * 4)
-                out['z3_s'] = round(out['z3_s'] + t4, 3)
-                if res4 in ('unsat', 'sat'):
-                    out['z3'], out['model'], out['reason'] = res4, model4, reason4
-                    return out
+            # candidate counterexample found without the lemma axioms; only a native replay can confirm it (the driver re-solves
+            # the full query with a large budget before it gives the obligation up)
             out['z3'] = 'sat'
             out['model'] = m0
             out['weak'] = True
@@ -191,3 +242,12 @@ def solve_all(jobs, procs=16):
         return [solve_one(j) for j in jobs]
     with mp.get_context('fork').Pool(min(procs, len(jobs))) as pool:
         return pool.map(solve_one, jobs, chunksize=max(1, len(jobs) // (procs * 8)))
+
+
+def strong_resolve(smt2, names, z3_ms, cvc5_ms):
+    """large-budget second opinion on one full query: cvc5, then z3 with four times the budget -> 'unsat' | 'sat' | 'unknown'"""
+    r2, _, _ = _run_cvc5(smt2, cvc5_ms * 2)
+    if r2 in ('unsat', 'sat'):
+        return r2
+    res, _, _, _ = _run_z3(smt2, names, z3_ms * 4)
+    return res if res in ('unsat', 'sat') else 'unknown'
